@@ -50,11 +50,12 @@ theorem insert_walk (root r : Option T) (e : Entry) (h : Usual.C06.insert root e
 
 open Heap
 
-theorem listAppend_cases (h : Heap) (l v : Option Nat) :
-    h.listAppend l v = (h, false) ∨
+theorem listAppend_cases (cyc : Bool) (h : Heap) (l v : Option Nat) :
+    h.listAppend cyc l v = (h, false) ∨
     ∃ vi vc li es n la, v = some vi ∧ l = some li ∧ h.cells[vi]? = some vc ∧ vc.attached = false ∧
       h.cells[li]? = some ⟨.list es n, la⟩ ∧
-      h.listAppend l v = ((h.markAttached vi).pushElem li vi, true) := by
+      (cyc = true → h.selfOrAncestor vi (h.cells.length + 1) li = false) ∧
+      h.listAppend cyc l v = (((h.markAttached vi).setParent vi li).pushElem li vi, true) := by
   unfold listAppend
   split
   · rename_i vi vc hg
@@ -62,19 +63,23 @@ theorem listAppend_cases (h : Heap) (l v : Option Nat) :
     · rename_i li es n la hgl
       by_cases ha : vc.attached = true
       · left; simp [ha]
-      · right
-        refine ⟨vi, vc, li, es, n, la, rfl, rfl, ?_, by simpa using ha, ?_, by simp [ha]⟩
+      · by_cases hcy : (cyc && h.selfOrAncestor vi (h.cells.length + 1) li) = true
+        · left; simp [ha, hcy]
+        right
+        refine ⟨vi, vc, li, es, n, la, rfl, rfl, ?_, by simpa using ha, ?_, ?_, by simp [ha, hcy]⟩
         · simpa [Heap.get] using hg
         · simpa [Heap.get] using hgl
+        · intro hc; subst hc; simpa using hcy
     · left; rfl
   · left; rfl
 
-theorem dictPut_cases (h : Heap) (d : Option Nat) (k : Bytes) (v : Option Nat) :
-    h.dictPut true d k v = (h, false) ∨
+theorem dictPut_cases (cyc : Bool) (h : Heap) (d : Option Nat) (k : Bytes) (v : Option Nat) :
+    h.dictPut true cyc d k v = (h, false) ∨
     ∃ vi vc di t n da t', v = some vi ∧ d = some di ∧ h.cells[vi]? = some vc ∧ vc.attached = false ∧
-      h.cells[di]? = some ⟨.dict t n, da⟩ ∧ validString k = true ∧
+      h.cells[di]? = some ⟨.dict t n, da⟩ ∧ (validString k = true ∧ k.length ≤ Heap.jsonMaxKey) ∧
       Usual.C06.insert t ⟨k, vi⟩ = some t' ∧
-      h.dictPut true d k v = ((h.markAttached vi).setDict di t' (n + 1), true) := by
+      (cyc = true → h.selfOrAncestor vi (h.cells.length + 1) di = false) ∧
+      h.dictPut true cyc d k v = (((h.markAttached vi).setParent vi di).setDict di t' (n + 1), true) := by
   unfold dictPut
   split
   · rename_i vi vc hg
@@ -82,15 +87,21 @@ theorem dictPut_cases (h : Heap) (d : Option Nat) (k : Bytes) (v : Option Nat) :
     · rename_i di t n da hgl
       by_cases ha : vc.attached = true
       · left; simp [ha]
-      · by_cases hk : validString k = true
-        · cases hi : Usual.C06.insert t ⟨k, vi⟩ with
-          | none => left; simp [ha, hk]
+      · by_cases hcy : (cyc && h.selfOrAncestor vi (h.cells.length + 1) di) = true
+        · left; simp [ha, hcy]
+        by_cases hk : validString k = true
+        · by_cases hlen : k.length > Heap.jsonMaxKey
+          · left; simp [ha, hcy, hk, hlen]
+          cases hi : Usual.C06.insert t ⟨k, vi⟩ with
+          | none => left; simp [ha, hcy, hk, hlen]
           | some t' =>
             right
-            refine ⟨vi, vc, di, t, n, da, t', rfl, rfl, ?_, by simpa using ha, ?_, hk, hi, by simp [ha, hk]⟩
+            refine ⟨vi, vc, di, t, n, da, t', rfl, rfl, ?_, by simpa using ha, ?_, ⟨hk, by omega⟩, hi, ?_,
+              by simp [ha, hcy, hk, hlen]⟩
             · simpa [Heap.get] using hg
             · simpa [Heap.get] using hgl
-        · left; simp [ha, hk]
+            · intro hc; subst hc; simpa using hcy
+        · left; simp [ha, hcy, hk]
     · left; rfl
   · left; rfl
 
@@ -103,7 +114,7 @@ def nodeOk : Node → Prop
   | .str s => validString s = true
   | .list es n => n = es.length
   | .dict t n => n = (walk t).length ∧ Usual.C06.Inv t ∧ Usual.C06.NTZ t ∧
-      ∀ e ∈ walk t, validString e.key = true
+      ∀ e ∈ walk t, validString e.key = true ∧ e.key.length ≤ Heap.jsonMaxKey
   | _ => True
 
 def SizeInv (h : Heap) : Prop := ∀ c ∈ h.cells, nodeOk c.node
@@ -225,11 +236,11 @@ theorem validString_noTrailingZero (k : Bytes) (h : validString k = true) :
   exact this rfl
 
 theorem nodeOk_insert (t t' : Option T) (n : Nat) (k : Bytes) (vi : Nat)
-    (ho : nodeOk (.dict t n)) (hk : validString k = true)
+    (ho : nodeOk (.dict t n)) (hk : validString k = true ∧ k.length ≤ Heap.jsonMaxKey)
     (hi : Usual.C06.insert t ⟨k, vi⟩ = some t') : nodeOk (.dict t' (n + 1)) := by
   obtain ⟨hn, hinv, hntz, hkeys⟩ := ho
   obtain ⟨a, b, e1, e2⟩ := insert_walk t t' _ hi
-  have hr := (Usual.C06.insert_refines t hinv hntz ⟨k, vi⟩ (validString_noTrailingZero k hk)).2 t' hi
+  have hr := (Usual.C06.insert_refines t hinv hntz ⟨k, vi⟩ (validString_noTrailingZero k hk.1)).2 t' hi
   refine ⟨?_, hr.1, hr.2.1, ?_⟩
   · rw [hn, e1, e2]; simp; omega
   · intro e he
@@ -240,11 +251,17 @@ theorem nodeOk_insert (t t' : Option T) (n : Nat) (k : Bytes) (vi : Nat)
     · exact hk
     · exact hkeys e (by rw [e1]; simp [he])
 
-theorem SizeInv.listAppend {h : Heap} (hi : SizeInv h) (l v : Option Nat) :
-    SizeInv (h.listAppend l v).1 := by
-  rcases listAppend_cases h l v with e | ⟨vi, vc, li, es, n, la, _, _, _, _, _, e⟩
+@[simp] theorem setParent_cells (h : Heap) (vi li : Nat) : (h.setParent vi li).cells = h.cells := by
+  unfold Heap.setParent; split <;> rfl
+
+theorem SizeInv.setParent {h : Heap} (hi : SizeInv h) (vi li : Nat) : SizeInv (h.setParent vi li) := by
+  intro c hc; rw [setParent_cells] at hc; exact hi c hc
+
+theorem SizeInv.listAppend {h : Heap} (hi : SizeInv h) (cyc : Bool) (l v : Option Nat) :
+    SizeInv (h.listAppend cyc l v).1 := by
+  rcases listAppend_cases cyc h l v with e | ⟨vi, vc, li, es, n, la, _, _, _, _, _, _, e⟩
   · rw [e]; exact hi
-  · rw [e]; exact (hi.markAttached vi).pushElem li vi
+  · rw [e]; exact ((hi.markAttached vi).setParent vi li).pushElem li vi
 
 theorem markAttached_get_dict {h : Heap} {vi di : Nat} {t : Option T} {n : Nat} {da : Bool}
     (hd : h.cells[di]? = some ⟨.dict t n, da⟩) :
@@ -264,14 +281,16 @@ theorem markAttached_get_dict {h : Heap} {vi di : Nat} {t : Option T} {n : Nat} 
     · simp [e, hd]
   · exact ⟨da, hd⟩
 
-theorem SizeInv.dictPut {h : Heap} (hi : SizeInv h) (d : Option Nat) (k : Bytes) (v : Option Nat) :
-    SizeInv (h.dictPut true d k v).1 := by
-  rcases dictPut_cases h d k v with e | ⟨vi, vc, di, t, n, da, t', _, _, _, _, hd, hk, hins, e⟩
+theorem SizeInv.dictPut {h : Heap} (hi : SizeInv h) (cyc : Bool) (d : Option Nat) (k : Bytes)
+    (v : Option Nat) : SizeInv (h.dictPut true cyc d k v).1 := by
+  rcases dictPut_cases cyc h d k v with e | ⟨vi, vc, di, t, n, da, t', _, _, _, _, hd, hk, hins, _, e⟩
   · rw [e]; exact hi
   · rw [e]
-    exact (hi.markAttached vi).setDict di t' (n + 1) (nodeOk_insert t t' n k vi (hi.get hd) hk hins)
+    exact ((hi.markAttached vi).setParent vi di).setDict di t' (n + 1)
+      (nodeOk_insert t t' n k vi (hi.get hd) hk hins)
 
-theorem SizeInv.step {h : Heap} (hi : SizeInv h) (op : Op) : SizeInv (h.step true op).1 := by
+theorem SizeInv.step {h : Heap} (hi : SizeInv h) (cyc : Bool) (op : Op) :
+    SizeInv (h.step true cyc op).1 := by
   cases op with
   | new s => exact hi.newScalar s
   | newList => exact hi.alloc _ (by simp [nodeOk])
@@ -279,17 +298,17 @@ theorem SizeInv.step {h : Heap} (hi : SizeInv h) (op : Op) : SizeInv (h.step tru
     refine hi.alloc _ ⟨rfl, trivial, ?_, ?_⟩
     · intro e he; simp [walk] at he
     · intro e he; simp [walk] at he
-  | append l v => exact hi.listAppend l v
+  | append l v => exact hi.listAppend cyc l v
   | appendS l s =>
     simp only [Heap.step]
     by_cases hc : h.hasContext l = true
-    · simp only [hc, if_true]; exact (hi.newScalar s).listAppend _ _
+    · simp only [hc, if_true]; exact (hi.newScalar s).listAppend cyc _ _
     · simp only [hc, Bool.false_eq_true, if_false]; exact hi
-  | put d k v => exact hi.dictPut d k v
+  | put d k v => exact hi.dictPut cyc d k v
   | putS d k s =>
     simp only [Heap.step]
     by_cases hc : h.hasContext d = true
-    · simp only [hc, if_true]; exact (hi.newScalar s).dictPut _ _ _
+    · simp only [hc, if_true]; exact (hi.newScalar s).dictPut cyc _ _ _
     · simp only [hc, Bool.false_eq_true, if_false]; exact hi
   | «seal» v =>
     simp only [Heap.step]
@@ -297,10 +316,11 @@ theorem SizeInv.step {h : Heap} (hi : SizeInv h) (op : Op) : SizeInv (h.step tru
     · exact hi.markAttached _
     · exact hi
 
-theorem SizeInv.run {h : Heap} (hi : SizeInv h) (ops : List Op) : SizeInv (h.run true ops).1 := by
+theorem SizeInv.run {h : Heap} (hi : SizeInv h) (cyc : Bool) (ops : List Op) :
+    SizeInv (h.run true cyc ops).1 := by
   induction ops generalizing h with
   | nil => exact hi
-  | cons op ops ih => simp only [Heap.run]; exact ih (hi.step op)
+  | cons op ops ih => simp only [Heap.run]; exact ih (hi.step cyc op)
 
 theorem SizeInv.empty : SizeInv {} := by intro c hc; cases hc
 
@@ -463,8 +483,14 @@ theorem markAttached_get (h : Heap) (vi : Nat) (vc : Cell) (hv : h.cells[vi]? = 
     exact ⟨true, by simp [hlt], fun _ => rfl⟩
   · exact ⟨c.attached, by simp [e, hc], fun h => absurd h.symm e⟩
 
-theorem Good.listAppend (h : Heap) (l v : Option Nat) : Good h (h.listAppend l v).1 := by
-  rcases listAppend_cases h l v with e | ⟨vi, vc, li, es, n, la, _, _, hv, hva, hl, e⟩
+theorem occ_setParent (h : Heap) (a b id : Nat) : occ (h.setParent a b) id = occ h id := by
+  simp [occ]
+
+theorem isAtt_setParent (h : Heap) (a b id : Nat) : isAtt (h.setParent a b) id ↔ isAtt h id := by
+  simp [isAtt]
+
+theorem Good.listAppend (cyc : Bool) (h : Heap) (l v : Option Nat) : Good h (h.listAppend cyc l v).1 := by
+  rcases listAppend_cases cyc h l v with e | ⟨vi, vc, li, es, n, la, _, _, hv, hva, hl, _, e⟩
   · rw [e]; exact Good.refl h
   · rw [e]
     obtain ⟨m1, o1⟩ := Good.markAttached h vi
@@ -478,17 +504,18 @@ theorem Good.listAppend (h : Heap) (l v : Option Nat) : Good h (h.listAppend l v
         simp only [Heap.children] at this; omega
     obtain ⟨la', hl1, _⟩ := markAttached_get h vi vc hv li _ hl
     obtain ⟨av, hv1, hav⟩ := markAttached_get h vi vc hv vi _ hv
-    obtain ⟨m2, o2⟩ := pushElem_good (h.markAttached vi) li vi es n la' hl1
-    refine ⟨fun id a => m2 id (m1 id a), Or.inr ⟨vi, ?_, ?_, ?_⟩⟩
+    obtain ⟨m2, o2⟩ := pushElem_good ((h.markAttached vi).setParent vi li) li vi es n la'
+      (by rw [setParent_cells]; exact hl1)
+    refine ⟨fun id a => m2 id ((isAtt_setParent _ _ _ _).mpr (m1 id a)), Or.inr ⟨vi, ?_, ?_, ?_⟩⟩
     · rintro ⟨c, hc, ha⟩
       rw [hv] at hc; simp only [Option.some.injEq] at hc; subst hc
       rw [hva] at ha; cases ha
-    · exact m2 vi ⟨_, hv1, hav rfl⟩
-    · intro id; rw [o2 id, o1' id]
+    · exact m2 vi ((isAtt_setParent _ _ _ _).mpr ⟨_, hv1, hav rfl⟩)
+    · intro id; rw [o2 id, occ_setParent, o1' id]
 
-theorem Good.dictPut (h : Heap) (d : Option Nat) (k : Bytes) (v : Option Nat) :
-    Good h (h.dictPut true d k v).1 := by
-  rcases dictPut_cases h d k v with e | ⟨vi, vc, di, t, n, da, t', _, _, hv, hva, hd, hk, hins, e⟩
+theorem Good.dictPut (cyc : Bool) (h : Heap) (d : Option Nat) (k : Bytes) (v : Option Nat) :
+    Good h (h.dictPut true cyc d k v).1 := by
+  rcases dictPut_cases cyc h d k v with e | ⟨vi, vc, di, t, n, da, t', _, _, hv, hva, hd, hk, hins, _, e⟩
   · rw [e]; exact Good.refl h
   · rw [e]
     obtain ⟨m1, _⟩ := Good.markAttached h vi
@@ -499,14 +526,14 @@ theorem Good.dictPut (h : Heap) (d : Option Nat) (k : Bytes) (v : Option Nat) :
       simp only [Heap.children] at this; omega
     obtain ⟨da', hd1, _⟩ := markAttached_get h vi vc hv di _ hd
     obtain ⟨av, hv1, hav⟩ := markAttached_get h vi vc hv vi _ hv
-    obtain ⟨m2, o2⟩ := setDict_good (h.markAttached vi) di t t' n (n + 1) da' ⟨k, vi⟩ hd1
-      (insert_walk t t' _ hins)
-    refine ⟨fun id a => m2 id (m1 id a), Or.inr ⟨vi, ?_, ?_, ?_⟩⟩
+    obtain ⟨m2, o2⟩ := setDict_good ((h.markAttached vi).setParent vi di) di t t' n (n + 1) da' ⟨k, vi⟩
+      (by rw [setParent_cells]; exact hd1) (insert_walk t t' _ hins)
+    refine ⟨fun id a => m2 id ((isAtt_setParent _ _ _ _).mpr (m1 id a)), Or.inr ⟨vi, ?_, ?_, ?_⟩⟩
     · rintro ⟨c, hc, ha⟩
       rw [hv] at hc; simp only [Option.some.injEq] at hc; subst hc
       rw [hva] at ha; cases ha
-    · exact m2 vi ⟨_, hv1, hav rfl⟩
-    · intro id; rw [o2 id, o1' id]
+    · exact m2 vi ((isAtt_setParent _ _ _ _).mpr ⟨_, hv1, hav rfl⟩)
+    · intro id; rw [o2 id, occ_setParent, o1' id]
 
 theorem Good.newScalar (h : Heap) (s : Scalar) : Good h (h.newScalar s).1 := by
   cases s with
@@ -528,22 +555,23 @@ theorem Good.newScalar (h : Heap) (s : Scalar) : Good h (h.newScalar s).1 := by
     · exact Good.refl h
     · exact Good.alloc h _ rfl
 
-theorem AttInv.step {h : Heap} (hi : AttInv h) (op : Op) : AttInv (h.step true op).1 := by
+theorem AttInv.step {h : Heap} (hi : AttInv h) (cyc : Bool) (op : Op) :
+    AttInv (h.step true cyc op).1 := by
   cases op with
   | new s => exact hi.of_good (Good.newScalar h s)
   | newList => exact hi.of_good (Good.alloc h _ rfl)
   | newDict => exact hi.of_good (Good.alloc h _ rfl)
-  | append l v => exact hi.of_good (Good.listAppend h l v)
+  | append l v => exact hi.of_good (Good.listAppend cyc h l v)
   | appendS l s =>
     simp only [Heap.step]
     split
-    · exact (hi.of_good (Good.newScalar h s)).of_good (Good.listAppend _ _ _)
+    · exact (hi.of_good (Good.newScalar h s)).of_good (Good.listAppend cyc _ _ _)
     · exact hi
-  | put d k v => exact hi.of_good (Good.dictPut h d k v)
+  | put d k v => exact hi.of_good (Good.dictPut cyc h d k v)
   | putS d k s =>
     simp only [Heap.step]
     split
-    · exact (hi.of_good (Good.newScalar h s)).of_good (Good.dictPut _ _ _ _)
+    · exact (hi.of_good (Good.newScalar h s)).of_good (Good.dictPut cyc _ _ _ _)
     · exact hi
   | «seal» v =>
     simp only [Heap.step]
@@ -551,10 +579,11 @@ theorem AttInv.step {h : Heap} (hi : AttInv h) (op : Op) : AttInv (h.step true o
     · exact hi.of_good (Good.markAttached h _)
     · exact hi
 
-theorem AttInv.run {h : Heap} (hi : AttInv h) (ops : List Op) : AttInv (h.run true ops).1 := by
+theorem AttInv.run {h : Heap} (hi : AttInv h) (cyc : Bool) (ops : List Op) :
+    AttInv (h.run true cyc ops).1 := by
   induction ops generalizing h with
   | nil => exact hi
-  | cons op ops ih => simp only [Heap.run]; exact ih (hi.step op)
+  | cons op ops ih => simp only [Heap.run]; exact ih (hi.step cyc op)
 
 theorem AttInv.empty : AttInv {} := by intro id; simp [occ, isAtt]
 
@@ -660,7 +689,77 @@ theorem toVal_wf {h : Heap} (hi : SizeInv h) : ∀ (fuel i : Nat) (v : JVal),
           have hsorted' : (walk t).Pairwise (fun a b => keyLt a.key b.key = true) :=
             hsorted.imp (fun {a b} hab => by rw [← keyLt_eq]; exact hab)
           obtain ⟨w1, w2, _⟩ := kvs_of_forall₂ (fun e => h.toVal f e.obj) (walk t) l
-            (optList_map _ _ l ho) (fun x y hxy => ih x.obj y hxy) hkeys hsorted'
+            (optList_map _ _ l ho) (fun x y hxy => ih x.obj y hxy) (fun e he => (hkeys e he).1) hsorted'
           simp [JVal.wf, w1, w2]
+
+/-! ## names within `JSON_MAX_KEY` -/
+
+mutual
+/-- every member name of the tree is at most `JSON_MAX_KEY` bytes long -/
+def JVal.shortKeys : JVal → Prop
+  | .list l => shortKeysList l
+  | .dict kvs => shortKeysKvs kvs
+  | _ => True
+def shortKeysList : List JVal → Prop
+  | [] => True
+  | v :: vs => v.shortKeys ∧ shortKeysList vs
+def shortKeysKvs : List (Bytes × JVal) → Prop
+  | [] => True
+  | (k, v) :: r => k.length ≤ Heap.jsonMaxKey ∧ v.shortKeys ∧ shortKeysKvs r
+end
+
+theorem shortKeysList_of_forall₂ {α : Type} (f : α → Option JVal) (xs : List α) (l : List JVal)
+    (h : List.Forall₂ (fun x y => f x = some y) xs l)
+    (hw : ∀ x y, f x = some y → y.shortKeys) : shortKeysList l := by
+  induction h with
+  | nil => trivial
+  | cons hxy _ ih => exact ⟨hw _ _ hxy, ih⟩
+
+theorem shortKeysKvs_of_forall₂ (f : Entry → Option JVal) (es : List Entry) (l : List JVal)
+    (h : List.Forall₂ (fun x y => f x = some y) es l)
+    (hw : ∀ x y, f x = some y → y.shortKeys)
+    (hk : ∀ e ∈ es, e.key.length ≤ Heap.jsonMaxKey) :
+    shortKeysKvs ((es.map (·.key)).zip l) := by
+  induction h with
+  | nil => trivial
+  | @cons e y es' l' hxy _ ih =>
+    exact ⟨hk e (by simp), hw _ _ hxy, ih (fun x hx => hk x (by simp [hx]))⟩
+
+theorem toVal_shortKeys {h : Heap} (hi : SizeInv h) : ∀ (fuel i : Nat) (v : JVal),
+    h.toVal fuel i = some v → v.shortKeys := by
+  intro fuel
+  induction fuel with
+  | zero => intro i v hv; simp [Heap.toVal] at hv
+  | succ f ih =>
+    intro i v hv
+    simp only [Heap.toVal] at hv
+    cases hc : h.cells[i]? with
+    | none => simp [hc] at hv
+    | some c =>
+      simp only [hc] at hv
+      have hok := hi.get hc
+      obtain ⟨node, att⟩ := c
+      cases node with
+      | null => simp at hv; subst hv; trivial
+      | bool b => simp at hv; subst hv; trivial
+      | int n => simp at hv; subst hv; trivial
+      | float x => simp at hv; subst hv; trivial
+      | str s => simp at hv; subst hv; trivial
+      | list es n =>
+        simp only at hv
+        cases ho : Heap.optList (es.map (h.toVal f)) with
+        | none => simp [ho] at hv
+        | some l =>
+          simp only [ho, Option.some.injEq] at hv; subst hv
+          exact shortKeysList_of_forall₂ _ es l (optList_map _ es l ho) (fun x y hxy => ih x y hxy)
+      | dict t n =>
+        simp only at hv
+        cases ho : Heap.optList ((walk t).map (fun e => h.toVal f e.obj)) with
+        | none => simp [ho] at hv
+        | some l =>
+          simp only [ho, Option.some.injEq] at hv; subst hv
+          simp only [nodeOk] at hok
+          exact shortKeysKvs_of_forall₂ (fun e => h.toVal f e.obj) (walk t) l
+            (optList_map _ _ l ho) (fun x y hxy => ih x.obj y hxy) (fun e he => (hok.2.2.2 e he).2)
 
 end Usual.C03
